@@ -97,6 +97,22 @@ func c25(c *Ctx) {
 			c.MustFact(go1[0], "served-only-if-registered", Truth(CallRes(Callee("grpc", "Server.addConn"), 0), true))
 		}
 	})
+	c.Ob("no-stream-after-drain", "R2", "server transport: a new stream is registered and handed to the server only while the transport is reachable — not while it drains (after the final GOAWAY of a graceful stop) and not while it closes", 2, func() {
+		oh := c.fn(tr, "http2Server.operateHeaders")
+		fState := c.field(tr, "http2Server", "state")
+		reachable := Cmp(FieldLoad(fState), token.EQL, ConstOfObj(c.konst(tr, "reachable")))
+		handle := one(c, "hand-off to the application", callsIn(oh, ValueCall(ParamV("handle"))))
+		c.MustFact(handle, "handled-only-while-reachable", reachable)
+		n := 0
+		for _, in := range instrsWhere(oh, func(in ssa.Instruction) bool {
+			mu, ok := in.(*ssa.MapUpdate)
+			return ok && FieldLoad(c.field(tr, "http2Server", "activeStreams"))(mu.Map)
+		}) {
+			n++
+			c.MustFact(in, "registered-only-while-reachable", reachable)
+		}
+		c.Expect(n == 1, nil, oh, "stream-registration", "expected one registration of an accepted stream")
+	})
 	c.Ob("handler-accounting", "R12", "per accepted stream: handlersWG.Add(1) and quota acquire precede scheduling; the scheduled function defers quota release and handlersWG.Done around the dispatcher; it is either handed to a worker or started as a goroutine on every path", 6, func() {
 		f := c.fn("grpc", "Server.serveStreams")
 		cbs := closuresPassedTo(f, Callee(tr, "ServerTransport.HandleStreams"), 1)
